@@ -117,21 +117,26 @@ Str mutate(Rng& rng, const Str& s0, int nmut) {
 }
 
 // ---------------------------------------------------------------- G-URI
-static const char* const SCHEMES[] = {"a", "http", "HTTP", "hTtP", "a+b-c.d", "x1", "file", "A", "b", "z9+"};
+static const char* const SCHEMES[] = {"a", "http", "HTTP", "hTtP", "a+b-c.d", "x1", "file", "A", "b", "z9+",
+    // words that mean something to somebody (a leniency or legacy-notation special case hangs on one of them)
+    "URL", "url", "Url", "FILE", "File", "https", "ftp", "mailto", "urn", "data", "ws", "javascript", "localhost", "about", "view-source", "jar", "blob", "s3", "git+ssh", "uri", "URI", "c", "C", "d"};
 static const char* const USERS[] = {"", "u", "user:pw", "a:1", "%41%7e", "U%3a", "a;b=c", "1", ":", "%7Euser", "%c3%a4"};
-static const char* const REGNAMES[] = {"", "h", "example.com", "EXAMPLE.COM", "ex%41mple", "%7Ehost", "h%3A", "H%3a", "a.b-c_d~e", "1.2.3.04", "256.1.1.1",
+static const char* const REGNAMES[] = {"localhost", "LOCALHOST", "localhost.", "example.com.", "0", "0x7f.0.0.1", "1.2.3.4.", "xn--bcher-kva.example", "-", "a_b", "", "h", "example.com", "EXAMPLE.COM", "ex%41mple", "%7Ehost", "h%3A", "H%3a", "a.b-c_d~e", "1.2.3.04", "256.1.1.1",
     "1.2.3", "1.2.3.4.5", "999", "01.2.3.4", "1.2.3.4a", "%c3%A4", "x%2Ey", "A%2d", "www.%45xample.org", "1.2.3.256", "a", "localhost"};
-static const char* const IP4S[] = {"1.2.3.4", "255.255.255.255", "0.0.0.0", "10.0.0.1", "192.168.100.249", "250.199.99.9", "127.0.0.1"};
-static const char* const IP6S[] = {"::1", "::", "1:2:3:4:5:6:7:8", "1:2:3:4:5:6:1.2.3.4", "::ffff:1.2.3.4", "ABCD::EF01", "1::8", "1:2::7:8", "::2:3:4:5:6:7:8",
+static const char* const IP4S[] = {"1.2.3.4", "255.255.255.255", "0.0.0.0", "10.0.0.1", "192.168.100.249", "250.199.99.9", "127.0.0.1",
+    // one address of every text length 7..15, and the octet values around the decimal-width and range boundaries
+    "1.2.3.44", "1.2.33.44", "1.22.33.44", "11.22.33.44", "111.22.33.44", "111.222.33.44", "111.222.133.44", "111.222.133.144", "9.10.99.100", "199.200.249.250", "100.101.25.26", "255.0.255.0", "192.0.2.1"};
+static const char* const IP6S[] = {"0000:0000:0000:0000:0000:ffff:192.0.2.1", "0000:0000:0000:0000:0000:0000:0000:0001", "FFFF:FFFF:FFFF:FFFF:FFFF:FFFF:255.255.255.255", "0000:0000:0000:0000:0000:0000:1.2.3.4", "::1", "::", "1:2:3:4:5:6:7:8", "1:2:3:4:5:6:1.2.3.4", "::ffff:1.2.3.4", "ABCD::EF01", "1::8", "1:2::7:8", "::2:3:4:5:6:7:8",
     "1:2:3:4:5:6:7::", "fe80::1", "::1.2.3.4", "1::1.2.3.4", "a:b:c:d:e:f:0:1", "0:0:0:0:0:0:0:0", "FFFF:ffff:FfFf:0:00:000:0000:1", "1:2:3:4:5::1.2.3.4", "::255.255.255.255"};
 static const char* const FUTURES[] = {"v1.x", "vF.a:b", "V7.AbC", "v0.!$&'()*+,;=", "vabc.DEF", "v1.~"};
 static const char* const PORTS[] = {"", "80", "0", "65536", "00080", "1", "443", "65535", "99999", "4294967296", "99999999999999999999", "2147483648"};
-static const char* const SEGS[] = {"", ".", "..", "a", "b", "b:c", "%2e", "%2E", "%41", "%7E", "%7e", "%3a", "%3A", "x;y", "a=b", "@", ":", "...", ".a", "a.", "~",
+static const char* const SEGS[] = {"C:", "c%7C", "URL:x", "file:", "%00", ".git", "~user", "", ".", "..", "a", "b", "b:c", "%2e", "%2E", "%41", "%7E", "%7e", "%3a", "%3A", "x;y", "a=b", "@", ":", "...", ".a", "a.", "~",
     "A", "%2e%2e", ".%2E", "c%2Fd", "%2F", "a%20b", "c", "d", "%61", "a:", ":a", "%C3%A4", "%c3%a4", "-", "_", "a+b", "a,b", "!$&'()*+,;="};
 static const char* const DOTSEGS[] = {"", ".", "..", "a", "b", "b:c", "", ".", "..", "%41", ":", "c", "..", ".", "x:"};
 static const char* const QUERIES[] = {"", "q", "a=b&c=d", "/?", "%41%3a%2f", "q?x/y", "%7e", "%7E", "a%20b", "x=%c3%a4", ":@", "?"};
 #define PICK(arr, rng) Str(arr[(rng).below((uint32_t)(sizeof(arr) / sizeof(arr[0])))])
 
+static size_t huge_length(Rng& rng) { static const size_t H[] = {65535, 65536, 65537, 70000, 65534, 32768, 32767}; return H[rng.below(rng.chance(2, 3) ? 4 : 7)]; }
 size_t special_length(Rng& rng) {
     static const size_t L[] = {1, 2, 3, 4, 5, 7, 8, 9, 15, 16, 17, 31, 32, 33, 63, 64, 65, 127, 128, 129, 254, 255, 256, 257, 258, 511, 512, 513, 1023, 1024, 1025, 4095, 4096, 4097};
     return L[rng.below(sizeof L / sizeof L[0] - (rng.chance(9, 10) ? 9 : 0))];     // the ones above 500 only rarely
@@ -149,7 +154,8 @@ Str gen_exact_length(Rng& rng, size_t n) {
 Str gen_ip6(Rng& rng) {
     if (rng.chance(1, 2)) return PICK(IP6S, rng);
     // random from the nine ABNF shapes: L groups, "::", R groups (+ optional ipv4 tail)
-    auto h16 = [&]() { int n = rng.range(1, 4); Str s; static const char* hx = "0123456789abcdefABCDEF"; for (int i = 0; i < n; i++) s.push_back(hx[rng.below(22)]); return s; };
+    bool padded = rng.chance(1, 5);      // every group written with four digits (leading zeros): literals of maximal / exact text length
+    auto h16 = [&]() { int n = padded ? 4 : rng.range(1, 4); Str s; if (padded && rng.chance(1, 2)) return Str(rng.chance(1, 2) ? "0000" : "00ff"); static const char* hx = "0123456789abcdefABCDEF"; for (int i = 0; i < n; i++) s.push_back(hx[rng.below(22)]); return s; };
     bool v4 = rng.chance(1, 4);
     int total = v4 ? 6 : 8;
     Str s;
@@ -194,24 +200,28 @@ Str gen_uri(Rng& rng, const UriGenOpts& o) {
     bool auth = o.auth < 0 ? rng.chance(1, 2) : o.auth != 0;
     bool special = o.lengths && rng.chance(1, 12);      // one component of a special length (counters, int/char-sized lengths, buffers)
     int which = special ? (int)rng.below(6) : -1;
-    if (scheme) { if (which == 0) { Str sc(special_length(rng), 'a'); for (auto& ch : sc) ch = (char)('a' + rng.below(26)); s += sc; } else s += PICK(SCHEMES, rng); s += ':'; }
+    bool hugeOne = o.huge && rng.chance(1, 1500); int hugeWhich = hugeOne ? (int)rng.below(7) : -1;      // 6 = segment count
+    if (hugeOne) { which = hugeWhich < 6 ? hugeWhich : -1; }
+    auto splen = [&]() { return hugeOne ? huge_length(rng) : special_length(rng); };
+    if (scheme) { if (which == 0) { Str sc(splen(), 'a'); for (auto& ch : sc) ch = (char)('a' + rng.below(26)); s += sc; } else s += PICK(SCHEMES, rng); s += ':'; }
     if (auth) {
         s += "//";
-        if (rng.chance(1, 3) || which == 1) { s += which == 1 ? gen_exact_length(rng, special_length(rng)) : PICK(USERS, rng); s += '@'; }
-        s += which == 2 ? gen_exact_length(rng, special_length(rng)) : gen_host(rng);
+        if (rng.chance(1, 3) || which == 1) { s += which == 1 ? gen_exact_length(rng, splen()) : PICK(USERS, rng); s += '@'; }
+        s += which == 2 ? gen_exact_length(rng, splen()) : gen_host(rng);
         if (rng.chance(1, 3)) { s += ':'; if (o.lengths && rng.chance(1, 40)) { Str d(special_length(rng), '0'); for (auto& ch : d) ch = (char)('0' + rng.below(10)); s += d; } else s += PICK(PORTS, rng); }
     }
     int nseg = rng.range(0, o.maxSegs);
     if (o.lengths && rng.chance(1, 60)) nseg = (int)special_length(rng) % 300;     // many segments
+    if (hugeWhich == 6) nseg = (int)huge_length(rng);
     bool rooted = auth ? true : rng.coin();
     if (nseg > 0 || (rooted && rng.coin())) {
         for (int i = 0; i < (nseg ? nseg : 1); i++) {
             if (i > 0 || rooted) s += '/';
-            if (nseg) s += (which == 3 && i == (nseg > 1 ? 1 : 0)) ? gen_exact_length(rng, special_length(rng)) : gen_segment(rng, o.dotHeavy, o.noPctDots, o.longSeg);
+            if (nseg) s += (which == 3 && i == (nseg > 1 ? 1 : 0)) ? gen_exact_length(rng, splen()) : gen_segment(rng, o.dotHeavy, o.noPctDots, o.longSeg);
         }
     }
-    if (rng.chance(1, 3) || which == 4) { s += '?'; s += which == 4 ? gen_exact_length(rng, special_length(rng)) : PICK(QUERIES, rng); }
-    if (rng.chance(1, 4) || which == 5) { s += '#'; s += which == 5 ? gen_exact_length(rng, special_length(rng)) : PICK(QUERIES, rng); }
+    if (rng.chance(1, 3) || which == 4) { s += '?'; s += which == 4 ? gen_exact_length(rng, splen()) : PICK(QUERIES, rng); }
+    if (rng.chance(1, 4) || which == 5) { s += '#'; s += which == 5 ? gen_exact_length(rng, splen()) : PICK(QUERIES, rng); }
     return s;
 }
 static const char* const BASES[] = {"http://a/b/c/d;p?q", "http://a/b/c/d;p?q#f", "a:b", "a:/b", "a:", "a://h", "a://h/", "a://h/p", "a://h/p/", "a://h/p/q/r", "a:b/c", "a:b/c/",
